@@ -80,7 +80,8 @@ def _worker(item):
         if c.get('cli'):
             writers.cli_sgy2sgz(S['sgy'], win, c['rate'], c['bs'], reduce_iops=c['iops'], window=(a, b, cc, dd))
         else:
-            writers.segy_to_sgz(S['sgy'], win, c['rate'], c['bs'], reduce_iops=c['iops'], header_detection=c['mode'], window=(a, b, cc, dd))
+            writers.segy_to_sgz(S['sgy'], win, c['rate'], c['bs'], reduce_iops=c['iops'], header_detection=c['mode'], window=(a, b, cc, dd),
+                                np_ints=(ci % 4 == 1))
         W = _read_all(win)
         if c.get('cli'):         # the command line maps its options one to one onto the API: same bytes
             api = os.path.join(d, f'api{ci}.sgz')
